@@ -71,6 +71,10 @@ structure AgRes where
   used : Nat             -- *outNumBits
 deriving Repr
 
+/-- the mean update: `mb = pb * (n + zmode) + mb - ((pb * mb) >> QBSHIFT)` in uint32_t, clamped to 0xffff for a code above 0xffff -/
+def mbNext (pb n nz mb : Nat) : Nat :=
+  if n > 65535 then 65535 else u32 ((pb * nz % 4294967296 + mb : Nat) - ((pb * mb % 4294967296 / 512 : Nat) : Int))
+
 /-- the `while (c < numSamples)` loop of `dyn_decomp`; `left` = numSamples - c, `q` = bits consumed, `off0` = bit index at
     the start, `maxPos` = byteSize * 8; `acc` = the samples so far, reversed. Every round stores at least one sample:
     `fuel` = numSamples rounds are enough (structural recursion on it) -/
@@ -88,8 +92,7 @@ def dynLoop (p : AgParams) (maxSize off0 maxPos : Nat) : Nat â†’ Nat â†’ Bits â†
       let q := q + used
       let nz := (n + zmode) % 4294967296
       let acc := delOf nz :: acc
-      let mb1 := u32 ((p.pb * nz % 4294967296 + mb : Nat) - ((p.pb * mb % 4294967296 / 512 : Nat) : Int))
-      let mb1 := if n > 65535 then 65535 else mb1
+      let mb1 := mbNext p.pb n nz mb
       if mb1 * 4 % 4294967296 < 512 âˆ§ left > 0 then
         let k := lead mb1 - 24 + (mb1 + 16) / 64
         let mz := (2 ^ k - 1) &&& p.wb
